@@ -33,6 +33,8 @@ CONSTANTS
   SweepUsesHWM, HwmFromAnswer, ServiceChecks, RestoreOnAhead, RestoreOnMismatch,
   FixPosZero,     \* FALSE = as coded: local position zero returns early
   ExcusePosZero,  \* TRUE = the known finding is excused in Progress / Adopt
+  MaxCrash,       \* 0 or 1: a client may die in the middle of a transaction (hot journal: synced journal, pages written)
+  RestoreRecovers,\* TRUE = as coded: a restore first rolls an interrupted transaction back (db.recover)
   Emit
 
 VARIABLES
@@ -43,12 +45,16 @@ VARIABLES
   acked, need, restores, fsr,        \* history: largest acknowledged HWM, lowest extendable service
                                      \* position, restores, fault since last restore
   idle, clean, rel0,                 \* progress record, pass bookkeeping
+  hot,                               \* "none" | "hot": a dead client's journal awaits its rollback | "over": the same, and a
+                                     \* restore has replaced the database underneath it | "done": rolled back or discarded
+                                     \* | "checked": ... and a recovery has run since
+  stale,                             \* the database file holds pages of an abandoned transaction: it is not the image at its position
   ev, hist                           \* last event (for action properties), script
 
 vars == <<exists, plin, files, hwm, chain, slin, pc, pend, why, txCount, faults, errs,
-          acked, need, restores, fsr, idle, clean, rel0, ev, hist>>
+          acked, need, restores, fsr, idle, clean, rel0, hot, stale, ev, hist>>
 view == <<exists, plin, files, hwm, chain, slin, pc, pend, why, txCount, faults, errs,
-          acked, need, restores, fsr, idle, clean, rel0>>
+          acked, need, restores, fsr, idle, clean, rel0, hot, stale>>
 
 Zero == [t |-> 0, c |-> 0]
 Max2(a, b) == IF a >= b THEN a ELSE b
@@ -116,6 +122,7 @@ Init ==
   /\ acked = 0 /\ need = 0 /\ restores = 0 /\ fsr = FALSE
   /\ idle = [p0 |-> Zero, k |-> 0, strict |-> FALSE, n |-> 0]
   /\ clean = TRUE /\ rel0 = "-"
+  /\ hot = "none" /\ stale = FALSE
   /\ ev = NoEv /\ hist = <<>>
 
 (* ------------------------------ bookkeeping ------------------------------ *)
@@ -131,6 +138,30 @@ Obs == [ex |-> exists', pt |-> PPos'.t, pid |-> PPos'.c, st |-> SPos'.t, sid |->
 H(a, g) == hist' = Append(hist, [a |-> a, g |-> g, o |-> Obs])
 
 (* -------------------------------- primary -------------------------------- *)
+\* the interrupted transaction's journal is played back (LiteFS's recovery, or SQLite's next connection): if a
+\* restore has replaced the database in between, the journal's pages belong to the abandoned history
+RollBack == /\ hot' = CASE hot \in {"hot", "over"} -> "done"
+                        [] hot = "done" -> "checked"     \* a recovery with nothing left to do (it is still run: role changes
+                                                        \* happen whether or not a journal is there)
+                        [] OTHER -> hot
+            /\ stale' = (stale \/ hot = "over")
+
+\* a client dies after it synced its journal and wrote pages (nothing is committed: position and log stay)
+Crash ==
+  /\ MaxCrash > 0 /\ hot = "none" /\ pc = "idle" /\ exists /\ PPos.t > 0
+  /\ hot' = "hot"
+  /\ UNCHANGED <<exists, plin, files, hwm, chain, slin, pc, pend, why, txCount, faults, errs, acked, need, restores, fsr, idle, clean, rel0, stale>>
+  /\ ev' = [NoEv EXCEPT !.a = "Crash"]
+  /\ H("Crash", NoG)
+
+\* Store.Recover / DB.Recover (role change, halt lock, restart): rolls the journal back
+Recover ==
+  /\ hot \in {"hot", "over", "done"} /\ pc = "idle"
+  /\ RollBack
+  /\ UNCHANGED <<exists, plin, files, hwm, chain, slin, pc, pend, why, txCount, faults, errs, acked, need, restores, fsr, idle, clean, rel0>>
+  /\ ev' = [NoEv EXCEPT !.a = "Recover"]
+  /\ H("Recover", NoG)
+
 Commit ==
   /\ pc = "idle" /\ txCount < MaxTx
   /\ LET t == Len(plin) + 1 IN
@@ -138,6 +169,7 @@ Commit ==
      /\ files' = files \cup {F(t, t)}
   /\ exists' = TRUE /\ txCount' = txCount + 1
   /\ UNCHANGED <<hwm, chain, slin, pc, pend, why, faults, errs, acked, need, restores, fsr, clean, rel0>>
+  /\ hot \notin {"hot", "over"} /\ UNCHANGED <<hot, stale>>   \* (the next connection would first play the journal back: Recover)
   /\ ResetIdle
   /\ ev' = [NoEv EXCEPT !.a = "Commit"]
   /\ H("Commit", [NoG EXCEPT !.n = txCount + 1])
@@ -149,6 +181,7 @@ Touch ==
   /\ ResetIdle
   /\ ev' = [NoEv EXCEPT !.a = "Touch"]
   /\ H("Touch", NoG)
+  /\ UNCHANGED <<hot, stale>>
 
 (* DB.EnforceRetention with a tiny retention: every file but the newest qualifies by age *)
 Sweep ==
@@ -160,6 +193,7 @@ Sweep ==
   /\ UNCHANGED <<exists, plin, hwm, chain, slin, pc, pend, why, txCount, faults, errs, acked, need, restores, fsr, idle, clean, rel0>>
   /\ ev' = [NoEv EXCEPT !.a = "Sweep"]
   /\ H("Sweep", NoG)
+  /\ UNCHANGED <<hot, stale>>
 
 (* PosMap + streamBackupDB's decision *)
 SyncStart ==
@@ -167,7 +201,10 @@ SyncStart ==
   /\ LET rp == SPos
          br == Decide(rp, Len(chain) > 0)
          r == Rel
-     IN /\ rel0' = r /\ clean' = TRUE
+     IN \* a snapshot of a database with an interrupted transaction is refused by WriteSnapshotTo's checksum
+        \* check (observed: the pass fails and is repeated until the journal is gone); not modelled
+        /\ ~(br = "snapshot" /\ hot \in {"hot", "over"})
+        /\ rel0' = r /\ clean' = TRUE
         /\ CASE br = "upload" ->
                   /\ pc' = "write" /\ why' = "-"
                   /\ pend' = [min |-> rp.t + 1, max |-> Min2(PPos.t, rp.t + W),
@@ -188,6 +225,7 @@ SyncStart ==
         /\ ev' = [a |-> "SyncStart", end |-> (pc' = "idle"), ok |-> TRUE, clean |-> TRUE, rel |-> r,
                   restored |-> FALSE, br |-> br]
         /\ H("SyncStart", [NoG EXCEPT !.br = br])
+        /\ UNCHANGED <<hot, stale>>
 
 PendContig == SPos.t + 1 = pend.min /\ SPos.c = pend.pre
 
@@ -198,6 +236,7 @@ WriteMismatch ==
   /\ UNCHANGED <<exists, plin, files, hwm, chain, slin, txCount, faults, errs, acked, need, restores, fsr, idle, clean, rel0>>
   /\ ev' = [NoEv EXCEPT !.a = "SyncWrite", !.rel = rel0, !.clean = clean]
   /\ H("SyncWrite", [NoG EXCEPT !.ans = "mismatch"])
+  /\ UNCHANGED <<hot, stale>>
 
 Accepted == ~ServiceChecks \/ PendContig
 
@@ -214,6 +253,7 @@ WriteOk(lag) ==
   /\ EndPass(TRUE, clean)
   /\ ev' = [a |-> "SyncWrite", end |-> TRUE, ok |-> TRUE, clean |-> clean, rel |-> rel0, restored |-> FALSE, br |-> "-"]
   /\ H("SyncWrite", [NoG EXCEPT !.ans = "ok", !.lag = lag])
+  /\ UNCHANGED <<hot, stale>>
 
 WriteErrBefore ==
   /\ pc = "write" /\ Accepted /\ errs < MaxErrs
@@ -223,6 +263,7 @@ WriteErrBefore ==
   /\ EndPass(FALSE, clean)
   /\ ev' = [a |-> "SyncWrite", end |-> TRUE, ok |-> FALSE, clean |-> clean, rel |-> rel0, restored |-> FALSE, br |-> "-"]
   /\ H("SyncWrite", [NoG EXCEPT !.ans = "errBefore"])
+  /\ UNCHANGED <<hot, stale>>
 
 WriteErrAfter ==
   /\ pc = "write" /\ Accepted /\ errs < MaxErrs
@@ -234,6 +275,7 @@ WriteErrAfter ==
   /\ EndPass(FALSE, clean)
   /\ ev' = [a |-> "SyncWrite", end |-> TRUE, ok |-> FALSE, clean |-> clean, rel |-> rel0, restored |-> FALSE, br |-> "-"]
   /\ H("SyncWrite", [NoG EXCEPT !.ans = "errAfter"])
+  /\ UNCHANGED <<hot, stale>>
 
 (* restoreDBFromBackup: FetchSnapshot, WriteLTXFileAt (snapshot replaces all files), ApplyLTXNoLock *)
 RestoreOk ==
@@ -246,6 +288,8 @@ RestoreOk ==
   /\ fsr' = FALSE
   /\ pc' = "idle" /\ why' = "-"
   /\ UNCHANGED <<hwm, chain, slin, pend, txCount, faults, errs, acked, clean, rel0>>
+  /\ hot' = IF hot = "hot" THEN (IF RestoreRecovers THEN "done" ELSE "over") ELSE hot
+  /\ stale' = FALSE       \* the snapshot replaces every page
   /\ EndPass(TRUE, clean)
   /\ ev' = [a |-> "SyncRestore", end |-> TRUE, ok |-> TRUE, clean |-> clean, rel |-> rel0, restored |-> TRUE, br |-> why]
   /\ H("SyncRestore", [NoG EXCEPT !.why = why, !.ans = "ok"])
@@ -257,6 +301,7 @@ RestoreFail ==    \* FetchSnapshot: no data
   /\ EndPass(FALSE, clean)
   /\ ev' = [a |-> "SyncRestore", end |-> TRUE, ok |-> FALSE, clean |-> clean, rel |-> rel0, restored |-> FALSE, br |-> why]
   /\ H("SyncRestore", [NoG EXCEPT !.why = why, !.ans = "nodata"])
+  /\ UNCHANGED <<hot, stale>>
 
 (* ----------------------------- service faults ---------------------------- *)
 FaultPc == pc = "idle" \/ (MidSyncFaults /\ pc \in {"write", "restore"})
@@ -271,13 +316,14 @@ Fault(kind, n, ch, lin) ==
                                \* be told "position mismatch" by the service although it could extend
   /\ ev' = [NoEv EXCEPT !.a = "Fault"]
   /\ H("Fault", [NoG EXCEPT !.k = kind, !.n = n])
+  /\ UNCHANGED <<hot, stale>>
 
 Rewind == \E n \in 1..(Len(chain) - 1) : Fault("rewind", n, SubSeq(chain, 1, n), SubSeq(slin, 1, chain[n].max))
 Fork == \E n \in 1..MaxFork : Fault("fork", n, DonorChain(n), DonorLin(n))
 Wipe == Len(chain) > 0 /\ Fault("wipe", 0, <<>>, <<>>)
 
 Next ==
-  \/ Commit \/ Touch \/ Sweep \/ SyncStart
+  \/ Commit \/ Touch \/ Sweep \/ SyncStart \/ Crash \/ Recover
   \/ WriteMismatch \/ (\E lag \in HwmLag : WriteOk(lag)) \/ WriteErrBefore \/ WriteErrAfter
   \/ RestoreOk \/ RestoreFail
   \/ Rewind \/ Fork \/ Wipe
@@ -311,6 +357,10 @@ RestoreAdopts == [][restores' = restores + 1 =>
                       /\ chain' = chain /\ exists' /\ PPos' = SPos /\ plin' = slin /\ files' = {F(1, SPos.t)}]_vars
 (* the published high-water mark never exceeds what the service has acknowledged *)
 HwmAcked == hwm <= acked
+\* the database file is the image at the primary's position whenever no interrupted transaction is pending:
+\* in particular a restore adopts the service's snapshot and nothing of an abandoned history comes back
+ImageAtPosition == ~stale
+RestoreDiscardsInterrupted == [][restores' = restores + 1 => hot' \in {"none", "done", "checked"}]_vars
 
 (* --------- leads (expected to be violated; evidence, not verdicts) -------- *)
 (* Appendix G lead (i), stage 1: after a rewind the HWM exceeds what the service holds *)
